@@ -241,8 +241,8 @@ def run():
     for gi, g in enumerate(groups):
         if len(g) >= 1 and any(len(t) > 6 for t in g):
             ctx.nontrivial((info[gi]['seed'], info[gi]['it']))
-    ctx.sample({'config': info[0], 'product_trace': groups[0][0][:4] if groups[0] else []})
-    ctx.sample(mrecs[0])
+    ctx.sample_first([{'config': info[0], 'product_trace': groups[0][0][:4] if groups[0] else []}] if info and groups else [])
+    ctx.sample_first(mrecs)
     ctx.leg('C', pairs=len(groups), product_traces=len(traces), rejected_traces=len(rej), violating_pairs=nviol, masked_pairs=len(mrecs),
             by_transform={k: sum(1 for i in info if i['transform'] == k) for k in ('scale', 'reverse')})
     ctx.cov['rule'] = ('%d pairs (x, T(x)) of get_next_imf / classic sift runs over 5 signal families x 3 stop rules x 5 step sizes x 3 interpolants x pad 1..4 x parabolic on/off, '
